@@ -269,6 +269,41 @@ def check(ctx):
             ctx.check(dedup, "C17.R12", f"{vu.qualname}:type-list", c, f"`{short(c, 60)}`: the types of the alternatives are concatenated as is: Union[int, NewType('U', int)] or Union[str, Path] gives {{\"type\": [\"integer\", \"integer\"]}}, invalid against the meta-schema", vu, c, detail="list(dict.fromkeys(types))")
     ctx.require(n12 >= 1, "_visited_union: folded type list not found")
 
+    # ---------------- R15: the inlining of an aggregate field's own type stops at that type
+    ctx.rule("C17.R15", "`_ignore_first_ref` (set to inline the type of a flattened / properties field) is cleared before the value type of a mapping is visited: otherwise a properties field typed Dict[str, 'Node'] inlines Node inside Node for ever", floor=2)
+    mp = model.func("apischema.json_schema.schema.SchemaBuilder.mapping")
+    vvis = [c for c in ast.walk(mp.node) if isinstance(c, ast.Call) and norm(c.func) == "self.visit" and c.args and norm(c.args[0]) == mp.params[3]]
+    ctx.require(len(vvis) == 1, "SchemaBuilder.mapping: visit of the value type not found")
+    withs = [w for w in ast.walk(mp.node) if isinstance(w, ast.With) and any(norm(i.context_expr) == "context_setter(self)" for i in w.items) and any(x is vvis[0] for x in ast.walk(w))]
+    cleared = False
+    for w in withs:
+        for st in w.body:
+            if isinstance(st, ast.Assign) and norm(st.targets[0]) == "self._ignore_first_ref" and norm(st.value) == "False" and st.lineno < vvis[0].lineno:
+                cleared = True
+    ctx.check(cleared, "C17.R15", f"{mp.qualname}:value", None,
+              "the value type of a mapping is visited with the `_ignore_first_ref` flag of the enclosing aggregate field still set (context_setter restores it after the key): its reference is inlined instead of emitted - deserialization_schema of `extra: Dict[str, 'Node'] = field(metadata=properties)` raises RecursionError",
+              mp, vvis[0], detail="with context_setter(self): self._ignore_first_ref = False; value = self.visit(value_type)")
+    setters = [a for f_ in model.funcs_in_module("apischema.json_schema.schema") for a in walk_no_nested(f_.node) if isinstance(a, ast.Assign) and norm(a.targets[0]) == "self._ignore_first_ref" and norm(a.value) == "True"]
+    ctx.check(len(setters) >= 2, "C17.R15", "SchemaBuilder:_ignore_first_ref setters", None, "the sites setting _ignore_first_ref changed (rule to be re-derived)", None, None, detail=f"{len(setters)} site(s) set the flag", nontrivial=False)
+
+    # ---------------- R16: the parent of a discriminated child is always extracted
+    ctx.rule("C17.R16", "the schema of a class inheriting a discriminator refers to its parent's definition (allOf [$ref parent, ...]): the pass counting references counts the parent at least twice for each child, so that it is extracted with all_refs=False too", floor=2)
+    ro = model.func("apischema.json_schema.refs.RefsExtractor.object")
+    incs = [c for c in ast.walk(ro.node) if isinstance(c, ast.Call) and norm(c.func) == "self._incr_ref" and "parent" in norm(c)]
+    par16 = {c_: p_ for p_ in ast.walk(ro.node) for c_ in ast.iter_child_nodes(p_)}
+    twice = len(incs) >= 2
+    for c in incs:
+        p_ = par16.get(c)
+        while p_ is not None and not isinstance(p_, (ast.For, ast.While)):
+            p_ = par16.get(p_)
+        if isinstance(p_, ast.For) and isinstance(p_.iter, ast.Call) and dotted(p_.iter.func) == "range" and p_.iter.args and isinstance(p_.iter.args[0], ast.Constant) and p_.iter.args[0].value >= 2:
+            twice = True
+    ctx.check(twice, "C17.R16", f"{ro.qualname}:parent-count", None,
+              "the discriminated parent is counted once per child: with all_refs=False and a single child in the schema it is not extracted, the builder finds no definition to refer to and deserialization_schema(Child, all_refs=False) dies on `assert discriminator_ref is not None`",
+              ro, incs[0] if incs else ro.node, detail="parent counted twice (ref count > 1)")
+    so17 = model.func("apischema.json_schema.schema.SchemaBuilder.object")
+    ctx.check("discriminator_ref = self.ref_schema(" in norm(so17.node), "C17.R16", f"{so17.qualname}:parent-ref", None, "the child schema no longer refers to its parent through ref_schema (rule to be re-derived)", so17, so17.node, detail="discriminator_ref = self.ref_schema(<parent name>)", nontrivial=False)
+
     # ---------------- R14: every traversal of the serialization direction sees the serialized methods
     ctx.rule("C17.R14", "the object hooks of the serialization direction agree on the children of an object: the schema builder and the method visitor visit the return type of every serialized method, so do the pass counting references and the recursion analysis (otherwise a type reached only through a serialized method is inlined twice, or a recursion through it never ends)", floor=4)
     SIBS = [("apischema.json_schema.schema.SerializationSchemaBuilder", ["properties", "object"], "schema builder"),
@@ -329,6 +364,8 @@ def check(ctx):
 
 
 def mutants(mb):
+    mb.add_text("mapping-value-keeps-ignore-flag", "apischema/json_schema/schema.py", "            self._ignore_first_ref = False\n            value = self.visit(value_type)\n", "            value = self.visit(value_type)\n", "C17.R15", "mapping")
+    mb.add_text("discriminated-parent-counted-once", "apischema/json_schema/refs.py", "            for _ in range(2):  # ensure ref count > 1\n                self._incr_ref(get_type_name(parent).json_schema, parent)\n", "            self._incr_ref(get_type_name(parent).json_schema, parent)\n", "C17.R16", "parent-count")
     mb.add_text("refs-skip-serialized-methods", "apischema/json_schema/refs.py", "        # serialized methods are properties of the schema too\n        for serialized, types in get_serialized_methods(tp):\n            self.visit_with_conv(types[\"return\"], serialized.conversion)\n", "", "C17.R14", "SerializationRefsExtractor")
     mb.add_text("recursion-skips-serialized-methods", "apischema/recursion.py", "        # the results of serialized methods are part of the serialized object\n        for serialized, types in get_serialized_methods(tp):\n            self.visit_with_conv(types[\"return\"], serialized.conversion)\n", "", "C17.R14", "SerializationRecursiveChecker")
     mb.add_text("conversion-loop-carried", "apischema/json_schema/schema.py", "    for tp in types:\n        conversion = None\n        if isinstance(tp, tuple):", "    conversion = None\n    for tp in types:\n        if isinstance(tp, tuple):", "C17.R13", "_extract_refs")
@@ -340,7 +377,7 @@ def mutants(mb):
     R = "apischema/json_schema/refs.py"
     S = "apischema/json_schema/schema.py"
     V = "apischema/json_schema/versions.py"
-    mb.add_text("extractor-skips-parent", R, "        if parent := get_discriminated_parent(get_origin_or_type(tp)):\n            self._incr_ref(get_type_name(parent).json_schema, parent)\n", "", "C17.R1", "object")
+    mb.add_text("extractor-skips-parent", R, "        if parent := get_discriminated_parent(get_origin_or_type(tp)):\n            # the schema of a child always refers to the one of its parent\n            for _ in range(2):  # ensure ref count > 1\n                self._incr_ref(get_type_name(parent).json_schema, parent)\n", "", "C17.R", "object")
     mb.add_text("builder-ref-by-graphql-name", S, "                ref_schema = self.ref_schema(get_type_name(ref_tp).json_schema)", "                ref_schema = self.ref_schema(get_type_name(ref_tp).graphql)", "C17.R1", "visit_conversion")
     mb.add_text("builder-dynamic-refs", S, "        schema = None\n        if not dynamic:\n            for ref_tp in self.resolve_conversion(tp):", "        schema = None\n        if True:\n            for ref_tp in self.resolve_conversion(tp):", "C17.R1", "not-dynamic")
     mb.add_text("union-counted-once", R, "        super().union(types)\n        if get_inherited_discriminator(types):\n            # Visit one more time discriminated union in order to ensure ref count > 1\n            super().union(types)", "        super().union(types)", "C17.R1", "union")
